@@ -380,7 +380,7 @@ func trunc(b []byte) string {
 
 func TestC14Cli(t *testing.T) {
 	vh.ShrinkTime("5s")
-	vh.Check(t, 12, 300, func(t *rapid.T) {
+	vh.Check(t, 16, 300, func(t *rapid.T) {
 		c := c14Cli{Format: rapid.SampledFrom([]string{"http", "json"}).Draw(t, "format"), Lazy: rapid.Bool().Draw(t, "lazy"),
 			Name: rapid.SampledFrom([]string{"", "", "big-bang"}).Draw(t, "name"), Hits: rapid.IntRange(4, 30).Draw(t, "hits"),
 			Chunked: rapid.IntRange(0, 3).Draw(t, "chunked") == 0, MaxBody: rapid.SampledFrom([]int64{-1, -1, 0, 1, 9, 10, 11, 4096}).Draw(t, "maxbody"),
@@ -416,7 +416,12 @@ func TestC14Cli(t *testing.T) {
 		}
 		nt := rapid.IntRange(1, 5).Draw(t, "ntargets")
 		if c.RateN > 0 {
-			nt = rapid.IntRange(1, 12).Draw(t, "ntargets2")
+			// more targets than whole rate periods fit into the duration: the fractional last period reaches further into the list
+			whole := c.RateN * (c.DurMS / c.RatePerMS)
+			nt = rapid.IntRange(1, whole+4).Draw(t, "ntargets2")
+			if rapid.Bool().Draw(t, "beyond") {
+				nt = whole + rapid.IntRange(1, 3).Draw(t, "ntargets3")
+			}
 		}
 		shared := 0
 		for i := 0; i < nt; i++ {
